@@ -2,7 +2,7 @@ SPECIFICATION Spec
 CONSTANTS NP = 1
           NC = 2
           MaxPrio = 1
-          Devs = {"Dev_C36_OverflowSortDesc", "Dev_C36_FullKeepsStale", "Dev_C36_EvictedTask", "Dev_C36_QueueTruncation", "Dev_C36_StaleHave"}
+          Devs = {"Dev_C36_StaleHave"}
           MCLimits = {1}
           MCMsgLen = 1
           MCIgnored = {}
